@@ -267,8 +267,17 @@ fn curved_case(ctx: &mut Ctx) {
             }
             3 => {
                 let (w, h) = (rng.uniform(2.0, 20.0) as f32, rng.uniform(2.0, 20.0) as f32);
-                let r = rng.uniform(0.0, 1.0) as f32 * w.min(h) * 0.5;
-                b.add_rounded_rectangle(&Box2D { min: c, max: point(c.x + w, c.y + h) }, &BorderRadii::new(r), want);
+                // radii: uniform, all zero (a plain rectangle through the rounded-rectangle helper),
+                // some zero, over-large (clamped) and independent per corner
+                let m = w.min(h) * 0.5;
+                let radii = match rng.below(6) {
+                    0 => BorderRadii::new(0.0),
+                    1 => BorderRadii { top_left: 0.0, top_right: rng.uniform(0.0, 1.0) as f32 * m, bottom_left: rng.uniform(0.0, 1.0) as f32 * m, bottom_right: 0.0 },
+                    2 => BorderRadii::new(rng.uniform(1.0, 3.0) as f32 * m),
+                    3 => BorderRadii { top_left: rng.uniform(0.0, 1.0) as f32 * m, top_right: rng.uniform(0.0, 1.0) as f32 * m, bottom_left: rng.uniform(0.0, 1.0) as f32 * m, bottom_right: rng.uniform(0.0, 1.0) as f32 * m },
+                    _ => BorderRadii::new(rng.uniform(0.0, 1.0) as f32 * m),
+                };
+                b.add_rounded_rectangle(&Box2D { min: c, max: point(c.x + w, c.y + h) }, &radii, want);
                 name = "rounded-rectangle";
             }
             _ => {
